@@ -4,6 +4,7 @@ import (
 	"context"
 	"flag"
 	"fmt"
+	"math"
 	"math/rand"
 	"sort"
 	"strings"
@@ -24,9 +25,14 @@ type linOp struct {
 	res        string
 }
 
-type regState struct{ exists, susp [2]bool }
+// regState: the registry (exists, susp per key) plus, for the JobDetail object that "reschedule" reuses for each key, whether it is
+// the one held by the registry entry (held) and the value of its Suspended flag (sflag), which Pause/Resume change in place.
+type regState struct{ exists, susp, held, sflag [2]bool }
 
 // specApply is the sequential specification of the registry (a map key -> paused?).
+// copying: the queue stores copies, so Pause/Resume never change the caller's JobDetail object
+var specCopying bool
+
 func specApply(s regState, o *linOp) (regState, string) {
 	k := o.key
 	switch o.kind {
@@ -34,13 +40,16 @@ func specApply(s regState, o *linOp) (regState, string) {
 		if s.exists[k] && !o.repl {
 			return s, "err exists"
 		}
-		s.exists[k], s.susp[k] = true, o.susp
+		s.exists[k], s.susp[k], s.held[k] = true, o.susp, false
+		return s, "ok"
+	case "reschedule": // the same *JobDetail again, Replace set, options untouched by the caller
+		s.exists[k], s.susp[k], s.held[k] = true, s.sflag[k], true
 		return s, "ok"
 	case "delete":
 		if !s.exists[k] {
 			return s, "err notfound"
 		}
-		s.exists[k], s.susp[k] = false, false
+		s.exists[k], s.susp[k], s.held[k] = false, false, false
 		return s, "ok"
 	case "pause":
 		switch {
@@ -50,6 +59,9 @@ func specApply(s regState, o *linOp) (regState, string) {
 			return s, "err suspended"
 		}
 		s.susp[k] = true
+		if s.held[k] && !specCopying {
+			s.sflag[k] = true
+		}
 		return s, "ok"
 	case "resume":
 		switch {
@@ -59,12 +71,15 @@ func specApply(s regState, o *linOp) (regState, string) {
 			return s, "err active"
 		}
 		s.susp[k] = false
+		if s.held[k] && !specCopying {
+			s.sflag[k] = false
+		}
 		return s, "ok"
 	case "get":
 		if !s.exists[k] {
 			return s, "err notfound"
 		}
-		return s, "ok " + b01(s.susp[k])
+		return s, "ok " + b01(s.susp[k]) + " " + b01(s.susp[k]) // paused <=> parked at the far-future priority
 	}
 	return s, "?"
 }
@@ -181,9 +196,15 @@ func linRun(args []string) int {
 		plan := make([][]*linOp, nclients)
 		for c := range plan {
 			for i := 0; i < per; i++ {
-				kind := []string{"schedule", "schedule", "delete", "pause", "resume", "get"}[r.Intn(6)]
+				kind := []string{"schedule", "schedule", "delete", "pause", "pause", "resume", "resume", "get", "reschedule"}[r.Intn(9)]
 				plan[c] = append(plan[c], &linOp{client: c, kind: kind, key: r.Intn(2), susp: r.Intn(4) == 0, repl: r.Intn(3) == 0})
 			}
+		}
+		shared := make([]*quartz.JobDetail, len(keys))
+		for i, k := range keys {
+			so := quartz.NewDefaultJobDetailOptions()
+			so.Replace = true
+			shared[i] = quartz.NewJobDetailWithOptions(&tagJob{tag: 2}, k, so)
 		}
 		base := time.Now()
 		var wg sync.WaitGroup
@@ -202,6 +223,8 @@ func linRun(args []string) int {
 						jo := quartz.NewDefaultJobDetailOptions()
 						jo.Suspended, jo.Replace = o.susp, o.repl
 						err = s.ScheduleJob(quartz.NewJobDetailWithOptions(&tagJob{tag: 1}, k, jo), quartz.NewSimpleTrigger(time.Hour))
+					case "reschedule":
+						err = s.ScheduleJob(shared[o.key], quartz.NewSimpleTrigger(time.Hour))
 					case "delete":
 						err = s.DeleteJob(k)
 					case "pause":
@@ -212,7 +235,7 @@ func linRun(args []string) int {
 						var sj quartz.ScheduledJob
 						sj, err = s.GetScheduledJob(k)
 						if err == nil {
-							o.res = "ok " + b01(sj.JobDetail().Options().Suspended)
+							o.res = "ok " + b01(sj.JobDetail().Options().Suspended) + " " + b01(sj.NextRunTime() == math.MaxInt64)
 						}
 					}
 					o.ret = int64(time.Since(base))
@@ -251,6 +274,7 @@ func linRun(args []string) int {
 		for _, o := range all {
 			dist["result"][o.kind+":"+strings.Join(strings.Fields(o.res)[:min(2, len(strings.Fields(o.res)))], " ")]++
 		}
+		specCopying = strings.HasPrefix(qkind, "copying")
 		if !linearizable(all) {
 			var desc []string
 			for _, o := range all {
